@@ -15,7 +15,7 @@ from verif.oracles import routing as O
 META = {
     "id": "C25", "engine": "E3 route_dump", "engine_path": "harness/route_dump.cpp",
     "engine_kind": "C++ harness building generated zones through the platform API (several zones side by side per engine, one forked child per engine, "
-                   "per-query CPU-time watchdog); python reference",
+                   "CPU-time watchdog re-armed for every query); python reference run in worker processes",
     "level": "exploration",
     "technique": "reference shortest-path differential: every route_to()/get_local_route() answer of a Floyd, Dijkstra or DijkstraCache zone must decompose "
                  "into a chain of declared one-hop routes and have the minimal link count computed by an independent Dijkstra; Full zones must echo the declaration",
@@ -32,12 +32,15 @@ META = {
                   "the direct route, equal-cost alternatives, asymmetric declarations, a one-way ring, a line with routers, a link shared by two hops.",
     "level_note": "source==destination queries are outside the statement and only counted. While the directed witness of the open finding "
                   "'Dijkstra zones spin as soon as a node is unreachable from the source' still spins, the random one-way graphs ask Dijkstra zones only the "
-                  "pairs that this defect cannot touch (no unreachable node is as near to the destination as the source is), except every 8th graph; once it "
-                  "is fixed every pair (and a sample of unreachable pairs) is asked everywhere. Plain flavour for all cases, ASan+UBSan flavour for a share of them.",
+                  "pairs that this defect cannot touch (no unreachable node is as near to the destination as the source is; these must be right even on the "
+                  "unfixed tree and keep their own violation keys), except every 8th graph; once it is fixed every pair (and a sample of pairs without "
+                  "path) is asked everywhere. A spin verdict needs 0.5 s (2 s under ASan) and then 2 s of CPU time burnt inside ONE route query that normally "
+                  "takes microseconds; wall-clock watchdogs only ever give 'inconclusive'. Plain flavour for all cases, ASan+UBSan flavour for the directed "
+                  "cases and every 7th random platform.",
     "rule": "case = one (graph, zone kind) platform; non-trivial = distinct platforms whose asked pairs were all answered and checked and in which at least "
             "one judged pair needs a chain of >=2 declared routes",
     "assumptions": ["route cost = number of links of the declared one-hop routes (as documented for Floyd/Dijkstra zones)"],
-    "ready": False,
+    "ready": True,
 }
 
 KINDS = ("floyd", "dijkstra", "dijkstracache")
